@@ -493,7 +493,7 @@ func runC07(c *Ctx) {
 		}}
 	if q {
 		// quick: four of the seven copy-on-write configurations
-		cw := []int{0, 3, 5}
+		cw := []int{0, 3}
 		p1.Dims[3] = len(cw)
 		p1.Run = func(idx []int) (string, *ev.Fail) {
 			return caseRun(idx[0], idx[1], idx[2], cw[idx[3]], idx[4], idx[5], -1)
